@@ -411,6 +411,10 @@ func (u *Unit) applyContract(fr *frame, st *State, callee *ssa.Function, c *Cont
 	var rvals []Value
 	if tu, ok := resT.(*types.Tuple); ok {
 		for i := 0; i < tu.Len(); i++ {
+			if c.FreshResults[i] && scalarSort(tu.At(i).Type()) == SInt && isPointerLike(tu.At(i).Type()) {
+				rvals = append(rvals, Sc{u.newObject(st), tu.At(i).Type()})
+				continue
+			}
 			rvals = append(rvals, u.freshValue(tu.At(i).Type(), "res_"+sanitize(name)))
 		}
 		if len(rvals) > 0 {
